@@ -2,6 +2,7 @@ package vs
 
 import (
 	"fmt"
+	"os"
 	"time"
 )
 
@@ -12,6 +13,8 @@ type PointRec struct {
 	Cost   int8
 	Kind   string
 	Costs  []int8
+	Key    uint64 // state key at the choice (0 unless the execution keeps keys)
+	Digest uint64
 }
 
 type replayChooser struct {
@@ -41,7 +44,8 @@ func (r *replayChooser) Choose(kind string, costs []int8) int {
 	for k := range costs { // no copy(): runtime.slicecopy carries race hooks
 		cc[k] = costs[k]
 	}
-	r.points = append(r.points, PointRec{N: len(costs), Chosen: c, Cost: costs[c], Kind: kind, Costs: cc})
+	key, dg := PointKey()
+	r.points = append(r.points, PointRec{N: len(costs), Chosen: c, Cost: costs[c], Kind: kind, Costs: cc, Key: key ^ hashStr(kind), Digest: dg})
 	return c
 }
 
@@ -71,6 +75,7 @@ type Stats struct {
 	Truncated    bool // deadline hit: not exhaustive
 	Nondet       string
 	Pruned       int64
+	Visited      int // state cache size (unbounded search)
 }
 
 type Explorer struct {
@@ -86,8 +91,17 @@ type Explorer struct {
 	MaxFound int
 	KeepKeys bool
 	MaxState int
-	// Prune enables happens-before state caching (sound for race-free code).
-	Prune bool
+	// Unbounded: explore EVERY thread choice at every scheduling point (no preemption bound; environment choices -
+	// early timers, select cases, failing writes - stay bounded by Bound, see altCost), with a cache of happens-before state keys:
+	// a choice point whose state key was expanded before is not expanded again (every state and every transition of
+	// the scenario is still executed at least once, not every path). Sound for oracles that judge states and
+	// transitions (panics, stranded threads, per-thread results), not for oracles over the global order of events.
+	Unbounded bool
+	// Digest: harness state summary compared when a state key is met again (see Config.Digest).
+	Digest func(user any) uint64
+	// MaxVisited caps the state cache (0: 4,000,000); when it is reached the exploration stops as truncated.
+	MaxVisited int
+	Prune      bool
 	// NoConfirm skips the 5-fold replay of a violation (race reports are
 	// de-duplicated by the race runtime and cannot fail twice).
 	NoConfirm bool
@@ -96,13 +110,49 @@ type Explorer struct {
 	Found   []Found
 	seenSig map[string]bool
 	counter int
-	visited map[uint64]int8
+	visited map[uint64]cacheEntry
+	dbgDone bool
+}
+
+type cacheEntry struct {
+	digest uint64
+	rem    int8 // deviation budget that was left when the state was expanded
+}
+
+var debugLong = os.Getenv("VS_TRACE_LONG")
+
+// altCost is what taking alternative alt at point p adds to the deviation count. Bounded search: every non-default
+// choice costs 1. Unbounded search: switching to another runnable thread is free (all interleavings are explored);
+// environment choices - a timer firing early or out of order, a select case other than the first ready one, a failing
+// write, a map order - still cost 1 each against Bound (they are what makes spin loops and periodic timers infinite).
+func (x *Explorer) altCost(p PointRec, alt int) int {
+	c := int(p.Costs[alt])
+	if !x.Unbounded {
+		if c > 1 {
+			c = 1
+		}
+		return c
+	}
+	if p.Kind == "sched" {
+		if c >= 2 {
+			return 1
+		}
+		return 0
+	}
+	if c > 1 {
+		c = 1
+	}
+	return c
 }
 
 func (x *Explorer) RunOnce(prefix []int, expect []PointRec, keepTrace bool) (*Result, any, *replayChooser) {
 	body, user := x.Make()
 	ch := &replayChooser{prefix: prefix, expect: expect}
-	res := Run(body, ch, Config{Horizon: x.Horizon, KeepTrace: keepTrace, KeepKeys: x.KeepKeys || x.Prune, User: user})
+	cfg := Config{Horizon: x.Horizon, KeepTrace: keepTrace, KeepKeys: x.KeepKeys || x.Prune || x.Unbounded, User: user}
+	if x.Digest != nil && x.Unbounded {
+		cfg.Digest = func() uint64 { return x.Digest(user) }
+	}
+	res := Run(body, ch, cfg)
 	return res, user, ch
 }
 
@@ -122,7 +172,10 @@ func (x *Explorer) Explore() {
 	x.Stats.Outcomes = map[uint64]struct{}{}
 	x.Stats.States = map[uint64]struct{}{}
 	x.seenSig = map[string]bool{}
-	x.visited = map[uint64]int8{}
+	x.visited = map[uint64]cacheEntry{}
+	if x.MaxVisited == 0 {
+		x.MaxVisited = 4000000
+	}
 	x.explore(nil, 0, nil, 0, x.Shard == 0)
 }
 
@@ -146,6 +199,18 @@ func (x *Explorer) explore(prefix []int, cost int, expect []PointRec, depth int,
 	if ch.diverged != "" {
 		x.Stats.Nondet = fmt.Sprintf("%s: replay of %v diverged: %s", x.Name, prefix, ch.diverged)
 		return
+	}
+	if debugLong != "" && res.Steps > 1500 && !x.dbgDone {
+		x.dbgDone = true
+		r2, _, _ := x.RunOnce(prefix, expect, true)
+		hist := map[string]int{}
+		for _, st := range r2.Trace {
+			hist[fmt.Sprintf("t%d:%s/%d", st.Thread, st.Kind, st.Obj)]++
+		}
+		if f, err := os.OpenFile(debugLong, os.O_APPEND|os.O_CREATE|os.O_WRONLY, 0o644); err == nil {
+			fmt.Fprintf(f, "LONG %s steps=%d prefix=%v\n hist=%v\n", x.Name, r2.Steps, prefix, hist)
+			f.Close()
+		}
 	}
 	if mine {
 		x.Stats.Executions++
@@ -198,8 +263,26 @@ func (x *Explorer) explore(prefix []int, cost int, expect []PointRec, depth int,
 	pts := ch.points
 	for i := len(prefix); i < len(pts); i++ {
 		p := pts[i]
+		if x.Unbounded {
+			rem := int8(x.Bound - cost)
+			if e, seen := x.visited[p.Key]; seen {
+				if e.digest != p.Digest {
+					x.Stats.Nondet = fmt.Sprintf("%s: state key %016x reached twice with different harness digests (%016x / %016x) at point %d of %v: the key is too coarse", x.Name, p.Key, e.digest, p.Digest, i, prefix)
+					return
+				}
+				if e.rem >= rem {
+					x.Stats.Pruned++
+					break // this state was expanded from another path with at least this budget: its successors are explored there
+				}
+			} else if len(x.visited) >= x.MaxVisited {
+				x.Stats.Truncated = true
+				return
+			}
+			x.visited[p.Key] = cacheEntry{p.Digest, rem}
+			x.Stats.Visited = len(x.visited)
+		}
 		for alt := 1; alt < p.N; alt++ {
-			c := cost + int(p.Costs[alt])
+			c := cost + x.altCost(p, alt)
 			if c > x.Bound {
 				continue
 			}
